@@ -46,10 +46,14 @@ pub fn run(rep: &mut Report) {
     let mut samples = vec![];
     for (id, name, _ty) in rc::PROP_TABLE.iter() {
         for loc in rc::ALL_LOCS {
-            for occ in [1usize, 2] {
+            // (256 / 257 occurrences: where an occurrence counter narrower than the property block allows would wrap)
+            for occ in [1usize, 2, 256, 257] {
                 for (vi, val) in values(*id).into_iter().enumerate() {
                     if occ == 2 && vi > 1 {
                         continue; // multiplicity is judged with the typical and the first boundary value
+                    }
+                    if occ > 2 && vi > 0 {
+                        continue;
                     }
                     cells += 1;
                     let p = Prop { id: *id, val: val.clone() };
@@ -91,7 +95,7 @@ pub fn run(rep: &mut Report) {
                             if samples.len() < 4 && cells % 211 == 0 {
                                 samples.push(json!({"cell": label, "spec": spec, "builder": b, "parser": parsed}));
                             }
-                            let why = if !rc::prop_allowed(*id, loc) { "the specification does not allow this property here" } else if occ == 2 && !rc::prop_may_repeat(*id, loc) { "the specification allows it at most once here" } else if !rc::prop_value_legal(&p) { "the specification forbids this value" } else { "the specification allows it" };
+                            let why = if !rc::prop_allowed(*id, loc) { "the specification does not allow this property here" } else if occ >= 2 && !rc::prop_may_repeat(*id, loc) { "the specification allows it at most once here" } else if !rc::prop_value_legal(&p) { "the specification forbids this value" } else { "the specification allows it" };
                             if b != spec {
                                 viols.push(mk("c18.builder", format!("the builder {} it but {why}", if b { "accepts" } else { "rejects" })));
                             }
